@@ -115,7 +115,10 @@ def _merge_toplevel(trees):
 
 @functools.lru_cache()
 def _make_reverse(row, reverse_prefix):
+    # keep the (?i) marker in front: it is a flag of the whole row, not its first word
+    flag = "(?i)" if "(?i)" in row else ""
+    row = row.replace("(?i)", "").strip()
     if row.startswith(reverse_prefix + " "):
-        return row[len(reverse_prefix + " "):]
+        return flag + row[len(reverse_prefix + " "):]
     else:
-        return "%s %s" % (reverse_prefix, row)
+        return "%s%s %s" % (flag, reverse_prefix, row)
